@@ -164,6 +164,25 @@ theorem C15_no_crash_image (st : Region) (x z : Int) (data : ByteArray) (now : B
   unfold crashImage
   rw [List.getElem?_eq_none hj, List.take_of_length_le hj]
 
+/-- `C15_crash_between_writes`: the crash model's other cut points — a crash exactly between two writes (`c = 0`:
+    no byte of write number `j` reached the file) leaves the old file with the first `j` writes applied and nothing
+    else (a torn write of zero bytes is no write: `pwrite` of an empty buffer changes nothing, not even the size);
+    in particular a crash before the first byte leaves the old file. -/
+theorem C15_crash_between_writes (f : ByteArray) (ws : List (Nat × ByteArray)) (j : Nat) :
+    crashImage f ws j 0 = applyWrites f (ws.take j) ∧ crashImage f ws 0 0 = f := by
+  have h : ∀ j, crashImage f ws j 0 = applyWrites f (ws.take j) := by
+    intro j
+    unfold crashImage
+    cases ws[j]? with
+    | none => rfl
+    | some w =>
+      simp only []
+      unfold put
+      rw [if_pos]
+      rw [ByteArray.size_extract]; omega
+  refine ⟨h j, ?_⟩
+  rw [h 0]; simp only [List.take_zero, applyWrites, List.foldl_nil]
+
 /-- non-vacuity: the hypotheses are met by every state reachable from `CreateWriter`, e.g. the fresh region -/
 example : Inv createWriter.1 (fun _ => none) := Inv.create
 example : idx? 3 5 = some 163 := by decide
